@@ -12,6 +12,12 @@ import EgoVerif.C15.Model
    `C <sql|tx> <dsnAdmin 0|1> <n> (<hex table> <perm>)*n`
                     → `allow <check>,…` | `deny <check>,…`  verdict and the table checks performed, in order
                       check = `T:<hex table>:<perm>` | `A` (DSN-admin)
+   `M <k> <tree>*k` a multi-statement @sql request → `<StatementKind> <usages>|<StatementKind> <usages>|…`
+                    (one entry per statement; `D` lines refer to the statements of the last `M` line)
+   `D <dsnAdmin 0|1> <n> (<hex table> <perm>)*n`
+                    → `allow <t>` | `deny <check> <t>`   verdict of authorizeAndFormatStatements for the whole
+                      request, the check that failed, and t = number of table-permission lookups
+                      (Authorized() calls) performed before the verdict
    `<tree>` = `<ty> <nstr> (<field> <hex>)* <nfields> (<field> <count> <tree>*count)*`
 -/
 namespace EgoVerif.C15
@@ -153,6 +159,7 @@ def wtNodeD (S : Schema) (n : Node) : Bool :=
 structure St where
   gen : Option GenData := none
   tree : Option Node := none      -- the statement of the last `T` line; `W`, `B`, `C` lines refer to it
+  batch : Option (List Node) := none   -- the statements of the last `M` line; `D` lines refer to them
 
 def handle (st : St) (line : String) : St × String :=
   match toks line with
@@ -173,6 +180,27 @@ def handle (st : St) (line : String) : St × String :=
       (st, "wt=" ++ b01 (ds.all (wtNodeD g.schema)) ++ " refs=" ++
         (if rs.isEmpty then "-" else ",".intercalate (rs.map hexOfString)))
     | _, _ => (st, "bad-input")
+  | "M" :: rest =>
+    match st.gen, (many pTree).run rest with
+    | some g, some (ns, []) =>
+      ({ st with batch := some ns },
+        "|".intercalate (ns.map (fun n =>
+          kindModel g.cases n ++ " " ++ showUsages (tablesModel g.schema g.cases g.cfg n))))
+    | _, _ => ({ st with batch := none }, "bad-input")
+  | "D" :: adm :: rest =>
+    match st.gen, st.batch with
+    | some g, some ns =>
+      let p : P (List (String × String)) := many (do let t ← hexStr; let pm ← tok; pure (t, pm))
+      match p.run rest with
+      | some (grants, []) =>
+        let s : Sess := { table := fun t pm => grants.contains (t, pm), dsnAdmin := adm == "1" }
+        let r := authorizeBatch g.schema g.cases g.cfg g.pmSql s ns
+        let t := (r.1.filter (fun c => match c with | .table _ _ => true | .dsnAdmin => false)).length
+        (st, match r.2 with
+          | none => "allow " ++ toString t
+          | some (_, c) => "deny " ++ showCheck c ++ " " ++ toString t)
+      | _ => (st, "bad-input")
+    | _, _ => (st, "no-batch")
   | op :: variant :: adm :: rest =>
     if op != "B" && op != "C" then (st, "bad-op") else
     match st.gen, st.tree with
